@@ -106,6 +106,12 @@ def main():
     mods = shims.load_plain_unyt()
     H = importlib.import_module(f"harness.{prop.lower()}")
     cases = {c.id: c for c in H.cases(payload["tier"], mods)}
+    from . import warm
+    for cid in ([payload.get("case")] + [it.get("case") for it in payload.get("items", [])]):
+        if cid and warm.is_warm(cid) and cid not in cases:
+            v = warm.resolve(cases, cid)
+            if v is not None:
+                cases[cid] = v
     if conformance:
         out = {}
         for cid in payload["cases"]:
